@@ -473,6 +473,7 @@ int disasm_68000(
           return len;
         case OP_MOVEA:
           size = (opcode >> 12) & 0x3;
+          if (size < 2) { break; }
           size = (size == 3) ? SIZE_W:SIZE_L;
           reg = (opcode >> 9) & 0x7;
           len  = get_ea_68000(memory, address, ea, sizeof(ea), opcode, 0, size);
@@ -652,6 +653,7 @@ int disasm_68000(
           uint16_t ea_dst = (opcode >> 6) & 0x3f;
           ea_dst = (ea_dst >> 3) | ((ea_dst & 0x7) << 3);
 
+          if (((opcode >> 12) & 3) == 0) { break; }
           if (is_ea_valid(&table_68000[n], opcode, 0) == 0) { break; }
           if (is_ea_valid(&table_68000[n], ea_dst, 1) == 0) { break; }
 
